@@ -9,10 +9,9 @@ import FpgoVerif.Model.C15Core
     effect returns, close(): ⟨gc0: isClosed.Set(true)⟩ ⟨gc1: (repaired code: close(doneCh))⟩
                              ⟨gc2: closedM.Lock(); close(resultCh); close(opCh); Unlock⟩
                              ⟨gc3 (repaired code): for op := range opCh { answer zero }⟩
-    `fixed = false` is cor.go as it is at 579c7d1: the send at r1 has no way out and accepted-but-unserved
-    requests are never answered.  `fixed = true` is the code with proposed-fix-cor-finish-strands-callers.patch:
-    r1 is `select { case opCh <- op: … case <-doneCh: }` and close() answers what is left in opCh with zero.
-    The executable prediction (`handle`) uses `fixed = true`: that is what the property demands (no deadlock).
+    `fixed = true` is cor.go as it is now (after cb38847): r1 is `select { case opCh <- op: … case <-doneCh: }`
+    and close() answers what is left in opCh with zero.  `fixed = false` is the code before cb38847 (the send at
+    r1 has no way out, accepted-but-unserved requests are never answered), kept for the refutation theorems.
     Callers are coroutine objects that never finish themselves (their resultCh is never closed). -/
 
 namespace FpgoVerif.C15.Co
@@ -59,7 +58,7 @@ def step (s : St) : PC → Option (St × Next PC)
     else none
   | .w id =>
     match s.answers.find? (·.1 == id) with
-    | some (_, y) => some ({ s with answers := s.answers.filter (·.1 != id) }, .fin (.okv y))
+    | some (_, y) => some ({ s with answers := s.answers.eraseP (·.1 == id) }, .fin (.okv y))
     | none => none
   | .isd => some (s, .fin (.b s.gflag))
   | .g1 y =>
